@@ -68,9 +68,6 @@ def preInts (c : Consts) : Img → Nat
   | .set _ => c.setPreInts
   | .hll _ => c.hllPreInts
 
-theorem drop_append_of_length {a b : Bytes} {n : Nat} (h : a.length = n) : (a ++ b).drop n = b := by
-  subst h; simp
-
 /-- The model's sequential layout puts every header byte at the offset the CURRENT headers name for it. -/
 theorem header_at_generated_offsets (c : Consts) (s : Img) :
     (encode c s)[DSGen.whll_PREAMBLE_INTS_BYTE]? = some (UInt8.ofNat (preInts c s % 256)) ∧
